@@ -174,9 +174,6 @@ func (d *deepView) digestOf(v ssa.Value, fr *frame) digestInfo {
 		if id := ir.CallID(call); id == "io.Copy" || id == "io.CopyN" || id == "io.CopyBuffer" {
 			if d.resolve(ir.StripIface(cc.Args[0]), di.fr).same(h) {
 				out.copies = append(out.copies, d.resolve(ir.StripIface(cc.Args[1]), di.fr))
-				if id == "io.CopyBuffer" {
-					out.why = "fed through io.CopyBuffer"
-				}
 			}
 		}
 	}
@@ -587,6 +584,18 @@ func checkC05(c *Ctx) {
 			}
 		}
 	}
+	if !foundAttrs && haveAttrBytes {
+		// the encoded attributes handed to a general-purpose decoder whose output the
+		// evaluator does not connect with the bytes embedded afterwards
+		for _, di := range dv.order {
+			if call, ok := di.i.(*ssa.Call); ok && ir.CallID(call) == "encoding/asn1.Unmarshal" {
+				if dv.sliceDeep(call.Call.Args[0], di.fr)[attributes.v] {
+					l3Undecided = "the encoded attributes are taken apart with encoding/asn1.Unmarshal; which of its outputs is embedded is not followed"
+					foundAttrs = true
+				}
+			}
+		}
+	}
 	if !foundAttrs {
 		bad = append(bad, "the signed attribute bytes are not embedded (the bytes under [0] do not derive from the encoder result that was hashed)")
 	}
@@ -848,7 +857,86 @@ func (c *Ctx) shapeCheck(shape string, ok bool, rule, fn, construct, pos, what, 
 		c.R.Infof(rule, fn, construct, pos, what+" -- not decided for this shape: parts of the emitted structure are not resolved ("+shape+")")
 		return
 	}
+	// elements handed to the builder as already-encoded bytes of unknown origin
+	// (encoding/asn1.Marshal of a struct, a helper's output): the rest of the
+	// structure is compared, those elements are not decided
+	if !ok {
+		if i := strings.Index(detail, "want\n"); i >= 0 {
+			want := strings.TrimSpace(detail[i+5:])
+			if n, same := shapeMatchOpaque(parseShape(shape), parseShape(want)); same && n > 0 {
+				c.R.Infof(rule, fn, construct, pos, fmt.Sprintf("%s -- not decided for this shape: %d element(s) are added as pre-encoded bytes whose content the evaluator does not resolve; the remaining structure agrees (%s)", what, n, shape))
+				return
+			}
+		}
+	}
 	c.R.Check(ok, rule, fn, construct, pos, what, detail)
+}
+
+type shapeNode struct {
+	head string // text up to '{' (or the whole atom)
+	kids []shapeNode
+	comp bool
+}
+
+func parseShape(s string) []shapeNode {
+	var parse func(i int) ([]shapeNode, int)
+	parse = func(i int) ([]shapeNode, int) {
+		var out []shapeNode
+		for i < len(s) {
+			switch s[i] {
+			case ' ':
+				i++
+				continue
+			case '}':
+				return out, i + 1
+			}
+			j := i
+			depthParen := 0
+			for j < len(s) && !(depthParen == 0 && (s[j] == ' ' || s[j] == '{' || s[j] == '}')) {
+				if s[j] == '(' {
+					depthParen++
+				} else if s[j] == ')' {
+					depthParen--
+				}
+				j++
+			}
+			n := shapeNode{head: s[i:j]}
+			if j < len(s) && s[j] == '{' {
+				n.comp = true
+				n.kids, j = parse(j + 1)
+			}
+			out = append(out, n)
+			i = j
+		}
+		return out, i
+	}
+	out, _ := parse(0)
+	return out
+}
+
+// shapeMatchOpaque compares two shapes; an opaque BYTES(·) on the emitted side
+// stands for any one element of the wanted side. Returns how many were used.
+func shapeMatchOpaque(got, want []shapeNode) (int, bool) {
+	if len(got) != len(want) {
+		return 0, false
+	}
+	n := 0
+	for k := range got {
+		g, w := got[k], want[k]
+		if g.head == "BYTES(·)" && !g.comp && (w.head != g.head || w.comp) {
+			n++
+			continue
+		}
+		if g.head != w.head || g.comp != w.comp {
+			return 0, false
+		}
+		m, ok := shapeMatchOpaque(g.kids, w.kids)
+		if !ok {
+			return 0, false
+		}
+		n += m
+	}
+	return n, true
 }
 
 // hasReset: the hash state h is reset somewhere in the view.
